@@ -4,7 +4,7 @@
     catalogue entry packs a typed model region ([MRegion]) with conversions to and from [uval] and
     a [probe] that renders a read item through all of its accessors. *)
 From FC Require Import Base.Res Index.IC Index.Stride Region.Region Region.Owned Region.Simple
-  Region.Slice Region.Collapse Region.Consec Region.Columns Region.Items Region.ItemsOk Region.Compare Resource.Res.
+  Region.Slice Region.Collapse Region.Consec Region.Columns Codec.Dictionary Region.Items Region.ItemsOk Region.Compare Resource.Res.
 Set Implicit Arguments.
 
 Inductive uval :=
@@ -190,6 +190,24 @@ Definition m_tuple2 (A B : MRegion) : MRegion := {|
   m_veq := fun a b => m_veq A (fst a) (fst b) && m_veq B (snd a) (snd b);
   m_res := tuple2_res (m_res A) (m_res B);
   m_ord := match m_ord A, m_ord B with Some a, Some b => Some (tuple2_ord a b) | _, _ => None end |}.
+
+(** [CodecRegion<DictionaryCodec, OwnedRegion<u8>>] *)
+Definition bytes_of_u (u : uval) : option (list N) :=
+  match u with
+  | UL l => omap (fun x => match x with UN n => if (n <? 256)%N then Some n else None | _ => None end) l
+  | _ => None
+  end.
+Definition codec_owned : Region := codec_region (owned N) (fun v : list N => v) (fun v : list N => v).
+Definition m_codec : MRegion := {|
+  mr := codec_owned; mi := codec_items (owned N) (fun v : list N => v) (fun v : list N => v);
+  mw := @Build_Wire codec_owned (codec_items (owned N) (fun v : list N => v) (fun v : list N => v))
+          bytes_of_u (fun v : list N => UL (map UN v)) (fun i : nat * nat => upair (fst i) (snd i))
+          (fun x : list N => Ok (UL (map UN x)));
+  m_veq := list_eqb N.eqb;
+  m_res := @Build_Res codec_owned (fun x : list N * codec => [N.of_nat (length (fst x))])
+                      (fun _ => [0%N]);
+  m_ord := Some (@Build_ItemOrd codec_owned (codec_items (owned N) (fun v : list N => v) (fun v : list N => v))
+                   (fun x y : list N => Ok (lex_cmp N.compare x y)) (lex_cmp N.compare)) |}.
 
 (** the report of a sequence-like read item: len, is_empty, get(0 .. len+1), iteration, owned *)
 Section SeqProbe.
